@@ -89,7 +89,7 @@ theorem core_afterOutput (al n o) : (afterOutput al n s o).core = (afterOutput a
   split <;> exact core_write h _ _
 theorem core_doSetEnabled (b : Bool) : (doSetEnabled s b).core = (doSetEnabled s' b).core := by
   core_cases
-  cases b <;> cases act <;> simp_all [St.core, doSetEnabled, doDiscard, resetActive, addLog]
+  cases b <;> cases act <;> simp_all [St.core, doSetEnabled_eq, doDiscard, resetActive, addLog]
 theorem core_doPlayData (key) : doPlayData s key = doPlayData s' key := by
   rw [core_eq_iff] at h
   unfold doPlayData
